@@ -384,6 +384,11 @@ func challenge(p *channel.Params) time.Duration {
 	return time.Duration(p.ChallengeDuration) * time.Second
 }
 
+// VerifyAll checks that sigs holds one valid signature per participant over st.
+func VerifyAll(params *channel.Params, st *channel.State, sigs []wallet.Sig) error {
+	return verifyAll(params, st, sigs)
+}
+
 func verifyAll(params *channel.Params, st *channel.State, sigs []wallet.Sig) error {
 	if params.ID() != st.ID {
 		return errors.New("state does not belong to the parameters")
